@@ -2885,6 +2885,9 @@ def _simple_display(v, fn_stored_later):
 class _FoldNoneTests(ast.NodeTransformer):
     """`None is None`, `(a, b) is None` ... and the ifs they decide."""
 
+    def __init__(self, nonnull=()):
+        self.nonnull = set(nonnull)
+
     def visit_If(self, node):
         self.generic_visit(node)
         t = node.test
@@ -2894,6 +2897,8 @@ class _FoldNoneTests(ast.NodeTransformer):
             if isinstance(t.left, ast.Constant):
                 val = t.left.value is None
             elif isinstance(t.left, (ast.Tuple, ast.List, ast.Dict, ast.Set)):
+                val = False
+            elif isinstance(t.left, ast.Name) and t.left.id in self.nonnull:
                 val = False
             if val is not None:
                 if isinstance(t.ops[0], ast.IsNot):
@@ -2906,7 +2911,7 @@ class _FoldNoneTests(ast.NodeTransformer):
     visit_AsyncFunctionDef = visit_Lambda = visit_FunctionDef
 
 
-def _tail_duplicate_block(block, fnode, fn_stored):
+def _tail_duplicate_block(block, fnode, fn_stored, is_ctor=lambda call: False):
     n = 0
     for i, st in enumerate(block):
         if not isinstance(st, ast.If) or i + 1 >= len(block):
@@ -2934,7 +2939,7 @@ def _tail_duplicate_block(block, fnode, fn_stored):
                     vals.add(unparse(last.value))
                 if isinstance(last.value, ast.Constant) and last.value.value is None:
                     noneness.add("none")
-                elif isinstance(last.value, (ast.Tuple, ast.List, ast.Dict)):
+                elif isinstance(last.value, (ast.Tuple, ast.List, ast.Dict)) or (isinstance(last.value, ast.Call) and is_ctor(last.value)):
                     noneness.add("object")
                 else:
                     noneness.add("?")
@@ -2964,6 +2969,15 @@ def _tail_duplicate_block(block, fnode, fn_stored):
                 if v in later_stored:
                     continue
                 val = b[k].value
+                if isinstance(val, ast.Call) and is_ctor(val):
+                    # an object: `v is None` is decided, the object itself stays where it is built
+                    fz = _FoldNoneTests(nonnull={v})
+                    rest_ = []
+                    for t in b[k + 1:]:
+                        r_ = fz.visit(t)
+                        rest_.extend(r_ if isinstance(r_, list) else [r_])
+                    b[k + 1:] = rest_
+                    continue
                 if not (_selector_value(val, fn_stored) or _simple_display(val, later_stored)):
                     continue
                 sub = _SubstName({v: val})
@@ -2998,6 +3012,18 @@ def tail_duplication(repo, rebuild, only_rels=None):
         if only_rels is not None and rel not in only_rels:
             continue
         n = 0
+
+        def is_ctor(call, m=m):
+            d = dotted(call.func)
+            if d is None:
+                return False
+            if d in m.classes:
+                return True
+            tgt = m.imports.get(d)
+            if tgt and "." in tgt:
+                m2 = repo.modules.get(tgt.rsplit(".", 1)[0].replace(".", "/") + ".py")
+                return m2 is not None and tgt.rsplit(".", 1)[1] in m2.classes
+            return False
         for f in [x for x in ast.walk(m.tree) if isinstance(x, _FUNC)]:
             fn_stored = _stored_names([f]) | {a.arg for a in ast.walk(f.args) if isinstance(a, ast.arg)}
             for _round in range(6):
@@ -3006,7 +3032,7 @@ def tail_duplication(repo, rebuild, only_rels=None):
                     for field in ("body", "orelse", "finalbody"):
                         blk = getattr(holder, field, None)
                         if isinstance(blk, list) and blk and isinstance(blk[0], ast.stmt):
-                            k += _tail_duplicate_block(blk, f, fn_stored)
+                            k += _tail_duplicate_block(blk, f, fn_stored, is_ctor)
                 n += k
                 if not k:
                     break
@@ -3102,9 +3128,51 @@ def _scalarize_value_objects_in(fnode, module, repo, known):
             vals[k.arg] = k.value
         if not ok or set(vals) != set(fields):
             continue
+        set_parents(fnode)
         stores = [z for z in ast.walk(fnode) if isinstance(z, ast.Name) and z.id == x and isinstance(z.ctx, (ast.Store, ast.Del))]
-        if len(stores) != 1:
+        # besides the construction only dead stores `x = None` directly before leaving (what an expanded `return None` leaves behind)
+        dead = []
+        for z in stores:
+            a_ = getattr(z, "_parent", None)
+            if a_ is st:
+                continue
+            h_ = getattr(a_, "_parent", None)
+            okd = False
+            if isinstance(a_, ast.Assign) and len(a_.targets) == 1 and isinstance(a_.value, ast.Constant) and a_.value.value is None:
+                for field_d in ("body", "orelse", "finalbody"):
+                    blk_d = getattr(h_, field_d, None)
+                    if isinstance(blk_d, list) and a_ in blk_d:
+                        j_ = blk_d.index(a_)
+                        if j_ + 1 < len(blk_d) and isinstance(blk_d[j_ + 1], (ast.Continue, ast.Break, ast.Return, ast.Raise)) and \
+                                not any(isinstance(y, ast.Name) and y.id == x for y in ast.walk(blk_d[j_ + 1])):
+                            okd = True
+                            dead.append((blk_d, a_))
+            if not okd:
+                dead = None
+                break
+        if dead is None:
             continue
+        if dead:
+            # ... and then every use of x follows the construction in its own block (no path from such a store to a use avoids the construction)
+            holder0 = getattr(st, "_parent", None)
+            blk0 = next((getattr(holder0, f_) for f_ in ("body", "orelse", "finalbody") if isinstance(getattr(holder0, f_, None), list) and st in getattr(holder0, f_)), None)
+            if blk0 is None:
+                continue
+            after = {id(y) for t_ in blk0[blk0.index(st) + 1:] for y in ast.walk(t_)}
+            if any(isinstance(y, ast.Name) and y.id == x and isinstance(y.ctx, ast.Load) and id(y) not in after for y in ast.walk(fnode)):
+                continue
+        # t1, .., tn = x   reads the fields in order
+        for u in [z for z in ast.walk(fnode) if isinstance(z, ast.Assign) and isinstance(z.value, ast.Name) and z.value.id == x and len(z.targets) == 1 and
+                  isinstance(z.targets[0], (ast.Tuple, ast.List)) and len(z.targets[0].elts) == len(fields) and all(isinstance(e, ast.Name) for e in z.targets[0].elts)]:
+            holder_u = getattr(u, "_parent", None)
+            for field_u in ("body", "orelse", "finalbody"):
+                blk_u = getattr(holder_u, field_u, None)
+                if isinstance(blk_u, list) and u in blk_u:
+                    iu = blk_u.index(u)
+                    blk_u[iu:iu + 1] = [ast.copy_location(ast.Assign(targets=[ast.Name(id=e.id, ctx=ast.Store())],
+                                                                     value=ast.Attribute(value=ast.Name(id=x, ctx=ast.Load()), attr=f_, ctx=ast.Load())), u)
+                                        for e, f_ in zip(u.targets[0].elts, fields)]
+        ast.fix_missing_locations(fnode)
         set_parents(fnode)
         loads = [z for z in ast.walk(fnode) if isinstance(z, ast.Name) and z.id == x and isinstance(z.ctx, ast.Load)]
         methods = {f.name: f for f in ci.node.body if isinstance(f, ast.FunctionDef)}
@@ -3167,7 +3235,15 @@ def _scalarize_value_objects_in(fnode, module, repo, known):
         repl = []
         for z in loads:
             p = getattr(z, "_parent", None)
-            if not (isinstance(p, ast.Attribute) and p.value is z and isinstance(p.ctx, ast.Load)):
+            is_sub = isinstance(p, ast.Subscript) and p.value is z and isinstance(p.ctx, ast.Load) and isinstance(p.slice, ast.Constant)
+            if not is_sub and not (isinstance(p, ast.Attribute) and p.value is z and isinstance(p.ctx, ast.Load)):
+                ok = False
+                break
+            if isinstance(p, ast.Subscript) and p.value is z and isinstance(p.ctx, ast.Load) and isinstance(p.slice, ast.Constant) and \
+                    isinstance(p.slice.value, int) and not isinstance(p.slice.value, bool) and 0 <= p.slice.value < len(fields):
+                repl.append((p, ast.Name(id="%s__%s" % (x, fields[p.slice.value]), ctx=ast.Load())))
+                continue
+            if is_sub:
                 ok = False
                 break
             pp = getattr(p, "_parent", None)
@@ -3187,6 +3263,8 @@ def _scalarize_value_objects_in(fnode, module, repo, known):
         if not ok:
             continue
         mapping = {id(w): e for w, e in repl}
+        for blk_d, a_ in dead:
+            blk_d.remove(a_)
 
         class R(ast.NodeTransformer):
             def visit(self, node):
@@ -3401,6 +3479,9 @@ def normalize(repo, rebuild):
     coalesce_inlined_copies(repo, rebuild)
     if tail_duplication(repo, rebuild):
         notes.append("common tail of an if / elif chain whose branches select constants for it moved back into the branches")
+        if scalarize_value_objects(repo, known, rebuild):
+            notes.append("local value object(s) of an unlisted NamedTuple class taken apart into one local per field")
+        coalesce_inlined_copies(repo, rebuild)
     fold_literals(repo, rebuild)
     lower_tuples_and_records(repo, rebuild)
     coalesce_inlined_copies(repo, rebuild)
